@@ -471,6 +471,109 @@ def rule_raw(ctx, rep):
     r.note("%d character loops / collections" % n)
 
 
+UNIT_DIGITS = {"as_hms_milli": 3, "as_hms_micro": 6, "as_hms_nano": 9, "millisecond": 3, "microsecond": 6, "nanosecond": 9,
+               "subsec_milliseconds": 3, "subsec_microseconds": 6, "subsec_nanoseconds": 9}
+
+
+def rule_fracpad(ctx, rep):
+    """Digits written after a decimal point are a fraction only if the integer is zero-padded to the number of digits of its unit:
+    50000 microseconds are `.050000`, not `.50000`.  For every formatting call in the renderer whose argument is an integer that (by
+    the numeric slice, through the DSL accessors) comes from a sub-second accessor of the `time` crate, the placeholder - read from
+    the format string literal in the source, the only place where the width is written down in a stable form - must be `{:0>N}`/`{:0N}`
+    with N = digits of the unit."""
+    from vlib.numflow import sources_of
+    r = rep.rule("R-C10-fracpad", "a sub-second integer (milli/micro/nanoseconds) is formatted zero-padded to the digits of its unit (3/6/9): "
+                                  "otherwise leading zeros of the fraction are lost and the rendered value is a different time", floor=1,
+                 floor_what="formatted sub-second values in the renderer")
+    import os
+    from vlib import facts as FF
+    n = 0
+    for b in sorted(ctx.prog.bodies.values(), key=lambda x: x.id):
+        if b.f["crate"] != "ironplc_plc2plc" or "::test" in norm(b.id):
+            continue
+        args = [c for c in sorted(b.calls(), key=lambda c: (c.bb, c.loc[1])) if (c.callee or "").startswith("core::fmt::rt::Argument") and c.args]
+        sub = []
+        for idx, c in enumerate(args):
+            if not re.search(r"\b(u8|u16|u32|u64|usize|i32|i64)\b", c.ga or ""):
+                continue
+            src = sources_of(ctx.prog, b, c.args[0])
+            # as_hms_*() return (h, m, s, sub-second): only component 3 is the fraction; single-value accessors count as they are
+            units = sorted({UNIT_DIGITS[x[1].split("::")[-1]] for x in src if (x[0] == "callk" and x[1].split("::")[-1] in UNIT_DIGITS and x[2] == 3)
+                            or (x[0] == "call" and x[1].split("::")[-1] in UNIT_DIGITS and not x[1].split("::")[-1].startswith("as_hms"))})
+            if units:
+                sub.append((idx, c, units[-1]))
+        if not sub:
+            continue
+        # the format string literals of this function, in source order
+        path = os.path.join(FF.WS, b.f["file"])
+        try:
+            lines = open(path, encoding="utf-8").read().splitlines()[b.f["line"] - 1:b.f.get("endline", b.f["line"] + 60)]
+        except OSError:
+            rep.error("R-C10-fracpad", "cannot read %s" % path)
+            return
+        text = "\n".join(lines)
+        # placeholders of all format strings of the function, in order; arguments are created in the same order
+        holes = []
+        for m in re.finditer(r'(?:format|write|writeln|print|println|format_args)!\s*\(\s*(?:[^,"]*,\s*)?"((?:[^"\\]|\\.)*)"', text):
+            for h in re.finditer(r"\{([^{}]*)\}", m.group(1).replace("{{", "").replace("}}", "")):
+                holes.append(h.group(1))
+        fn = re.sub(r"^<ironplc_plc2plc::renderer::LibraryRenderer as .*>::", "", norm(b.id)).replace("ironplc_plc2plc::", "")
+        for idx, c, digits in sub:
+            n += 1
+            inst = "%s|sub-second argument #%d" % (fn, idx + 1)
+            where = loc_str(b.f, c.loc)
+            if idx >= len(holes) or len(holes) != len(args):
+                r.finding(inst + "|placeholder-not-found", where, "cannot pair the argument with a placeholder of the format string (found %d placeholders for %d arguments)" % (len(holes), len(args)))
+                continue
+            spec = holes[idx]
+            m2 = re.match(r"^[^:]*:(?:(.)?([<>^]))?0?(\d+)?", spec) if ":" in spec else None
+            width = int(m2.group(3)) if m2 and m2.group(3) else 0
+            zero = bool(m2) and ((m2.group(1) == "0" and m2.group(2) == ">") or re.match(r"^[^:]*:0\d", spec) is not None)
+            if zero and width == digits:
+                r.ok(inst, where, "{%s}: zero-padded to %d digits" % (spec, width))
+            else:
+                r.finding(inst + "|padded to %d of %d digits" % (width if zero else 0, digits), where,
+                          "a value counted in units of 10^-%d s is written after the decimal point with placeholder {%s}: the digits do not line up with the unit "
+                          "(too narrow: 50000 microseconds become `.50000`, half a second; too wide: 125 milliseconds become `.000125`)" % (digits, spec))
+    r.note("%d formatted sub-second values" % n)
+
+
+def rule_post(ctx, rep):
+    """What the renderer wrote is what echo prints: nothing between the renderer's buffer and the caller may edit the text (trim lines,
+    replace, re-join): such passes cannot tell a blank inside a string literal from layout."""
+    r = rep.rule("R-C10-post", "the rendered text is returned as the renderer wrote it: write_to_string / renderer::apply call no text-editing function "
+                               "(trim*, replace*, lines, split*, join, retain, strip_*) on the result", floor=2, floor_what="functions between the renderer and the caller")
+    EDIT = {"trim", "trim_end", "trim_start", "trim_matches", "trim_end_matches", "trim_start_matches", "replace", "replacen", "lines", "split", "split_terminator",
+            "split_inclusive", "rsplit", "splitn", "join", "concat", "retain", "strip_suffix", "strip_prefix", "truncate", "pop", "remove", "to_uppercase", "to_lowercase",
+            "split_whitespace", "chars", "char_indices", "bytes"}
+    n = 0
+    for name in ("ironplc_plc2plc::write_to_string", "ironplc_plc2plc::renderer::apply"):
+        for b in ctx.prog.get(name):
+            n += 1
+            fam = [b] + [cb for cb in ctx.prog.bodies.values() if cb.f["dk"] == "Closure" and cb.f.get("parent") == b.id]
+            # helpers of the same crate called from here (other than the renderer's walk)
+            grew = True
+            while grew:
+                grew = False
+                for bd in list(fam):
+                    for c in bd.calls():
+                        for t in (ctx.prog.get(c.callee) if c.callee else []):
+                            if t.f["crate"] == "ironplc_plc2plc" and t.f["dk"] == "Fn" and "LibraryRenderer" not in norm(t.id) and t not in fam \
+                                    and norm(t.id) not in ("ironplc_plc2plc::renderer::apply", "ironplc_plc2plc::write_to_string"):
+                                fam.append(t)
+                                fam += [cb for cb in ctx.prog.bodies.values() if cb.f["dk"] == "Closure" and cb.f.get("parent") == t.id]
+                                grew = True
+            bad = sorted({"%s() in %s" % ((c.callee or c.u or "").split("::")[-1], norm(bd.id).split("::")[-1]) for bd in fam for c in bd.calls()
+                          if (c.callee or c.u or "").split("::")[-1] in EDIT and ("str" in (c.callee or "") or "String" in (c.callee or "") or "slice" in (c.callee or ""))})
+            inst = name.replace("ironplc_plc2plc::", "")
+            where = "%s:%d" % (b.f["file"], b.f["line"])
+            if bad:
+                r.finding(inst + "|edits-text", where, "the rendered text is edited after rendering (%s): blanks, line breaks or characters inside string literals and comments "
+                          "are changed together with the layout" % ", ".join(bad))
+            else:
+                r.ok(inst, where)
+
+
 def run(ctx, rep):
     rep.not_decided += ["parse(render(L)) == L itself (value-level)", "numeric formatting other than the fraction point of reals (durations truncated to whole ms)",
                         "separator/bracket completeness per production (design rule R-C10-sep not implemented: needs per-production token multisets)",
@@ -483,3 +586,5 @@ def run(ctx, rep):
     rule_uncond(ctx, rep)
     rule_real(ctx, rep)
     rule_raw(ctx, rep)
+    rule_fracpad(ctx, rep)
+    rule_post(ctx, rep)
